@@ -330,6 +330,26 @@ def run(tier, seed):
                 ok = isinstance(e, IOError) if row["outcome"] == "IOError" else (isinstance(e, ValueError) and not isinstance(e, IOError))
                 if not ok:
                     run.violation({"kind": "wrong_exception_class_second_pass", "row": row, "raised": type(e).__name__})
+        # "a stream without force_as raises ValueError" also when the stream has a name the type could be read off
+        # (open(), NamedTemporaryFile): the name of a stream is not consulted
+        np.save("named_stream.npy", np.arange(5.0))
+        np.savez("named_stream.npz", np.arange(5.0))
+        open("named_stream.bin", "wb").write(np.arange(5.0).tobytes())
+        for fn in ("named_stream.npy", "named_stream.npz", "named_stream.bin", None):
+            fh = open(fn, "rb") if fn else tempfile.NamedTemporaryFile(dir=tmp)
+            run.evaluations += 1
+            try:
+                with warnings.catch_warnings():
+                    warnings.simplefilter("ignore")
+                    util.read_signal(fh)
+                run.violation({"kind": "no_exception_where_ValueError_specified", "row": {"src": "stream", "force_as": "none"},
+                               "stream_name": fn or "NamedTemporaryFile"})
+            except Exception as e:
+                if not isinstance(e, ValueError) or isinstance(e, IOError):
+                    run.violation({"kind": "wrong_exception_class", "row": {"src": "stream", "force_as": "none"}, "raised": type(e).__name__,
+                                   "specified": "ValueError", "stream_name": fn or "NamedTemporaryFile"})
+            finally:
+                fh.close()
         # key selects the named entry (npz / hdf5), default entries
         key_checks(run, nprng)
         # wds_read_signal
